@@ -1,7 +1,7 @@
 (* C02 - Refining an allocation conserves tiling, module area and centroid.
    Statements only; every proof is [exact <lemma>]. *)
 From FrameModel Require Import Num.QcTac Geometry.Rect Alloc.Alloc Alloc.GeomExtra Alloc.RefinesFacts
-  Alloc.AcceptFacts Alloc.OpsFacts Alloc.Hist Alloc.HistFacts.
+  Alloc.AcceptFacts Alloc.OpsFacts Alloc.Thr Alloc.ThrFacts Alloc.Hist Alloc.HistFacts.
 Open Scope list_scope.
 Open Scope Qc_scope.
 
@@ -11,16 +11,24 @@ Open Scope Qc_scope.
 
 (* every composition of refine / uniform_refinement_depth / griddify succeeds on an accepted
    allocation, yields an accepted allocation, and is a refinement of its argument *)
-Theorem C02_run_ops_ok : forall eps aeps q ops, 0 <= aeps -> Forall op_admissible ops ->
+(* thresholds are what the code receives ([thr], Alloc/Thr.v: a finite value - [0,1] is where C02 quantifies -, but
+   also +inf, -inf or a NaN: the statements hold for all of them); [xop_admissible]: levels > 0 *)
+Theorem C02_run_ops_ok : forall eps aeps q ops, 0 <= aeps -> Forall xop_admissible ops ->
   forall cells, accepted aeps cells ->
-  exists new, run_ops eps aeps q ops cells = Some new /\ refines cells new /\ accepted aeps new.
-Proof. exact run_ops_ok. Qed.
+  exists new, run_xops eps aeps q ops cells = Some new /\ refines cells new /\ accepted aeps new.
+Proof. exact run_xops_ok. Qed.
 Print Assumptions C02_run_ops_ok.
 
-Theorem C02_refine_ok : forall aeps t levels cells, 0 <= aeps -> (0 < levels)%nat -> accepted aeps cells ->
-  exists new, refine aeps t levels cells = Some new /\ refines cells new /\ accepted aeps new.
-Proof. exact refine_ok. Qed.
+Theorem C02_refine_ok : forall aeps (t : thr) levels cells, 0 <= aeps -> (0 < levels)%nat -> accepted aeps cells ->
+  exists new, refine_x aeps t levels cells = Some new /\ refines cells new /\ accepted aeps new.
+Proof. exact refine_x_ok. Qed.
 Print Assumptions C02_refine_ok.
+
+(* on finite thresholds these are the functions of Alloc.v that the models of the callers use *)
+Theorem C02_fin_run_ops : forall eps aeps q ops cells,
+  run_xops eps aeps q (map xop_of_op ops) cells = run_ops eps aeps q ops cells.
+Proof. exact run_xops_of_ops. Qed.
+Print Assumptions C02_fin_run_ops.
 
 Theorem C02_uniform_ok : forall aeps cells, 0 <= aeps -> accepted aeps cells ->
   exists new, uniform_refinement_depth aeps cells = Some new /\ refines cells new /\ accepted aeps new.
@@ -110,7 +118,7 @@ Print Assumptions C02_hset_fixed_spec.
 (* ... and the next refinement call on that allocation, whatever it is and whatever was asked of the
    allocation before, hands that cell over whole *)
 Theorem C02_set_fixed_true_not_cut : forall eps aeps q s k x y after o' s1 fl,
-  0 <= aeps -> hvalid aeps s -> op_admissible o' ->
+  0 <= aeps -> hvalid aeps s -> xop_admissible o' ->
   hstep eps aeps q (HSetFixed k x y true after) s = (s1, OFixed fl) ->
   exists c j new parts, nth_error (hget s1 k) j = Some c /\ at_centre x y c = true /\ fixed (crect c) = true /\
     snd (hstep eps aeps q (HApply k o') s1) = ONew (Some new) /\
